@@ -848,7 +848,9 @@ func c18Run(t *rapid.T, st *vkit.Stats) {
 	vkit.CaseStart(func() string { return strings.Join(m.trace, " ; ") })
 	defer m.cleanup()
 
-	m.rateArg = rapid.SampledFrom([]time.Duration{-1, math.MinInt64, 0, 0, 1, 7, time.Microsecond, time.Microsecond, time.Millisecond, time.Millisecond, 4 * time.Second}).Draw(t, "rate")
+	m.rateArg = rapid.SampledFrom([]time.Duration{-1, math.MinInt64, 0, 0, 1, 7, time.Microsecond, time.Microsecond, time.Millisecond, time.Millisecond, 4 * time.Second,
+		// rates that are not round numbers: slots x rate then has no trailing zero bits to spare (exact integer arithmetic matters beyond 2^53 ns)
+		time.Second + 7, 4*time.Second + 3, 1500000001, time.Millisecond + 1}).Draw(t, "rate")
 	m.rate = m.rateArg
 	if m.rate <= 0 {
 		m.rate = c18DefaultRate
